@@ -172,12 +172,75 @@ static void mt_case(Out& out, Rng& rng, uint64_t nn, int nthreads, int iters, in
   spqlios_verif_set_cpu_mask(0, 0, 0);
 }
 
+// every thread CREATES its own module / tables (concurrently with the others), prepares its own scalar and matrix and
+// then works on them; a call must return what it returns when the whole thing runs alone.  Catches scratch or
+// tables shared between constructors.
+struct OwnArg { uint64_t nn, seed, out; std::atomic<int>* gate; };
+static uint64_t own_work(uint64_t nn, uint64_t seed) {
+  Rng r(seed);
+  Shared S;
+  S.nn = nn; S.iters = 1; S.simple = 0;
+  S.fft = new_module_info(nn, FFT64);
+  S.ntt = new_module_info(nn, NTT120);
+  S.rfft = new_reim_fft_precomp(nn / 2, 0);
+  S.rifft = new_reim_ifft_precomp(nn / 2, 0);
+  S.cfft = new_cplx_fft_precomp(nn / 2, 0);
+  S.ppol = new_svp_ppol(S.fft);
+  S.pmat = new_vmp_pmat(S.fft, 2, 3);
+  std::vector<int64_t> pol(nn), mat(6 * nn);
+  for (auto& x : pol) x = r.sbits(10);
+  for (auto& x : mat) x = r.sbits(10);
+  std::vector<uint8_t> tmp(1 << 18);
+  svp_prepare(S.fft, S.ppol, pol.data());
+  vmp_prepare_contiguous(S.fft, S.pmat, mat.data(), 2, 3, tmp.data());
+  uint64_t h = work(S, seed ^ 0x5bd1e995);
+  delete_module_info(S.fft);
+  delete_module_info(S.ntt);
+  free(S.rfft); free(S.rifft); free(S.cfft);
+  delete_svp_ppol(S.ppol);
+  delete_vmp_pmat(S.pmat);
+  return h;
+}
+static void* own_main(void* p) {
+  OwnArg* a = (OwnArg*)p;
+  while (a->gate->load() == 0) {}
+  a->out = own_work(a->nn, a->seed);
+  return nullptr;
+}
+static void mt_construct(Out& out, Rng& rng, uint64_t nn, int nthreads) {
+  uint64_t base = rng.next();
+  std::vector<OwnArg> args(nthreads);
+  std::vector<pthread_t> th(nthreads);
+  std::atomic<int> gate(0);
+  for (int i = 0; i < nthreads; i++) {
+    args[i] = OwnArg{nn, base + i, 0, &gate};
+    pthread_create(&th[i], 0, own_main, &args[i]);
+  }
+  gate.store(1);
+  for (int i = 0; i < nthreads; i++) pthread_join(th[i], 0);
+  std::string verdict = "ok";
+  for (int i = 0; i < nthreads; i++)
+    if (own_work(nn, base + i) != args[i].out) {
+      char buf[200];
+      snprintf(buf, sizeof buf, "FAIL thread %d of %d (nn=%" PRIu64 "): calls on objects created while other threads created theirs differ from the solo run", i, nthreads, nn);
+      verdict = buf;
+      break;
+    }
+  fprintf(out.ops, "ca nop mt_construct nn=%lu threads=%d", (unsigned long)nn, nthreads);
+  fprintf(out.real, "nop");
+  out.endcase(verdict);
+  out.count("construct_threads", nthreads);
+}
+
 STREAM(mt_module) {
   // first case: fresh process, module-level API only, first uses concurrent
   mt_case(out, rng, 64, 16, thorough ? 40 : 6, 0, 0);
   mt_case(out, rng, 16, 16, thorough ? 40 : 6, 0, 1);
   mt_case(out, rng, 256, 8, thorough ? 20 : 3, 0, 0);
   mt_case(out, rng, 4096, 8, 1, 0, 0);  // large tables: anything built lazily on first use shows here
+  // objects created concurrently (one set per thread)
+  mt_construct(out, rng, 2048, 8);
+  mt_construct(out, rng, 64, 16);
   // then the convenience API after its documented warm-up
   mt_case(out, rng, 64, 16, thorough ? 40 : 6, 1, 0);
   mt_case(out, rng, 32, 8, thorough ? 20 : 4, 1, 1);
